@@ -1307,7 +1307,7 @@ func TestVerifRaftStorage(t *testing.T) {
 	// ---- code -> spec: seeded random driver, trace validated by TLC ----
 	rng := env.Rand()
 	scopes := []string{"s1", "s2", "s3"}
-	traces := env.Pick(30, 400)
+	traces := env.Pick(30, 300)
 	for tr := 0; tr < traces && rep.Violations() < 4; tr++ {
 		dir := fresh()
 		s, err := newSUT(dir, scopes, drvN, 50*time.Microsecond)
